@@ -130,10 +130,18 @@ def finishSet (c : Case) : List String :=
   let i := joinSp c.obs ++ " " ++ showHex c.post
   let corr := if m == i then s!"{c.id} CORR ok" else s!"{c.id} CORR diff model=[{m}] impl=[{i}]"
   let raised := c.obs.head? != some "ok"
+  -- "some byte outside the field changed": computed here from the whole message when it crossed (`MSG`), else the
+  -- harness's word for it (`OUT`)
+  let outside :=
+    c.out || (match c.moff with
+      | none => false
+      | some off => c.mpre.take off != c.mpost.take off ||
+                    c.mpre.drop (off + c.ty.size) != c.mpost.drop (off + c.ty.size) ||
+                    c.mpre.length != c.mpost.length)
   let prop :=
     if !c.en then "skip"
     else match firstFalse (clauses c.ty c.key c.val
-        { pre := c.pre, post := c.post, raised := raised, outsideChanged := c.out, rb := c.rb }) with
+        { pre := c.pre, post := c.post, raised := raised, outsideChanged := outside, rb := c.rb }) with
       | some cl => "fail " ++ cl
       | none => "ok"
   let tag := (if inDom c.ty c.key c.val then "dom" else "bad") ++ (if raised then "-refused" else "-accepted")
